@@ -468,6 +468,19 @@ type cliEnv struct {
 	peer     *vpeer
 	c        *Client
 	err      error
+	status   *cliStatus // non-nil: the client has a remote-status function
+}
+
+// cliWait, when set by a setup function, makes the client one that was built with a remote-status function (what
+// NewClient over ssh does with Session.Wait): Client.Wait reports what it returns once the connection has ended.
+type cliStatus struct {
+	arrived bool
+	err     error
+}
+
+func (w *cliStatus) wait() error {
+	vsched.Env("remote.status", w, true, func() bool { return w.arrived })
+	return w.err
 }
 
 func newCliEnv(setup func(e *cliEnv), opts ...ClientOption) *cliEnv {
@@ -478,6 +491,10 @@ func newCliEnv(setup func(e *cliEnv), opts ...ClientOption) *cliEnv {
 	}
 	lastCliEnv = e
 	e.peer.start()
+	if e.status != nil {
+		e.c, e.err = newClientPipe(e.s2c, nil, e.c2s, e.status.wait, opts...)
+		return e
+	}
 	e.c, e.err = NewClientPipe(e.s2c, e.c2s, opts...)
 	return e
 }
